@@ -180,3 +180,17 @@ _p('C01', ['r_table', 'r_control', 'r_flow', 'r_segments', 'r_emitorder'],
    'one IR node per operator except nop; R-CONTROL: br/br_table mark the rest unreachable, br_if does not).',
    not_decided='execution equivalence itself (results, traps, state are runtime values); this check decides the structural '
                'necessary conditions listed, not the behaviour')
+
+_p('C19', ['r_pushpair', 'r_emitorder', 'r_flow', 'r_segments'],
+   'Index maps: per section parser, every allocated entity is pushed exactly once, with its own id, into the index space of its '
+   'kind (locals: per function, parameters first); per emitter, every appended item is assigned the next index of its kind in '
+   'the same iteration; data segments are numbered by a running counter over the iterator ModuleData::emit walks; the '
+   'emit-time map is handed to custom sections only after every standard section assigned its indices (R-EMITORDER); '
+   'R-FLOW/R-FLOW-SEG show that lookups go through the space of the referenced kind.',
+   not_decided='the numeric value of indices for a concrete module (follows from the pairing; not executed)')
+_p('C20', ['r_encform', 'r_control', 'r_table', 'r_segments'],
+   'No feature escalation: the DataCount section is emitted only for passive segments or memory.init/data.drop users '
+   '(the accumulated flag must be is_passive() only); active element segments for table 0 use the MVP encoding; block types '
+   'written in the compact form stay compact (R-CONTROL form obligations) and every operator is re-emitted as itself with its '
+   'memory/table index preserved (R-TABLE), so no immediate or opcode of another proposal can appear.',
+   not_decided='how wasm-encoder chooses encodings for a given Instruction/section value (trusted)')
